@@ -886,6 +886,8 @@ func (rule *RuleExpression) checkMatrixExpression(expr *String) *ObjectType {
 	if !ok {
 		return NewEmptyObjectType()
 	}
+	// The type may be shared with other expressions (e.g. type of `inputs` context). Don't modify it
+	matTy = matTy.shallowCopy()
 
 	// Consider properties in include section elements since 'include' section adds matrix values
 	incTy, ok := matTy.Props["include"]
